@@ -88,7 +88,7 @@ def run(chk):
                               '%s at release %d is laid out as %s; the published layout is %s' % (NAMES[p], v, [x[1] for x in d] if isinstance(d, list) else d, lay))
                 continue
             cls = c05.cls_of(q)
-            for i in range(6 if th else 3):
+            for i in range(6 if th else 4):
                 vals = []
                 for (nm, ty), s in zip(d, lay):
                     # one-byte fields: values on which the signed and unsigned readings coincide
